@@ -3,18 +3,6 @@
    given as a list, as nil (empty only), as a vector and as a string. *)
 From C14 Require Import Base Model Spec.
 
-Inductive repform := AsNil | AsList | AsVec | AsStr.
-(* AsNil: like AsList, but an empty sequence is written nil (the Go nil) instead of '() *)
-Definition in_form (f : repform) (s : seqin) : seqin :=
-  match f with
-  | AsNil => match elems s with [] => SNil | l => SList l end
-  | AsList => SList (elems s) | AsVec => SVec (elems s) | AsStr => SStr (elems s)
-  end.
-Definition with_form (f : repform) (c : call) : call :=
-  mkCall (c_fn c) (c_item c) (c_new c) (c_pred c) (in_form f (c_seq c)) (in_form f (c_seq2 c))
-         (c_start c) (c_end c) (c_end_nil c) (c_start2 c) (c_end2 c) (c_key c) (c_test c) (c_count c) (c_from_end c)
-         (c_op c) (c_init c) (c_nseq c) (c_flag c).
-
 Definition case := (call * list (repform * res))%type.
 
 (* 0 ok.  1: M <> observed, but the observed result is still what S demands (or the call is outside
